@@ -372,3 +372,40 @@ m('yaml-profile-none-before-port-form', 'R19g', 'config/config.go',
 	if c.ProfileAddress == "" && yc.ProfilePort > 0 {
 		c.ProfileAddress = net.JoinHostPort(yc.ProfileHost, strconv.Itoa(yc.ProfilePort))
 	}''')
+m('put-drain-only-on-success', 'R14e', 'cache/disk/disk.go',
+  '''	defer func() {
+		if r != nil {
+			_, _ = io.Copy(io.Discard, r)
+		}
+	}()
+
+	if size < 0 {''',
+  '''	defer func() {
+		if r != nil && rErr == nil {
+			_, _ = io.Copy(io.Discard, r)
+		}
+	}()
+
+	if size < 0 {''')
+m('put-empty-shortcut-any-kind', 'R01a', 'cache/disk/disk.go',
+  '''	if kind == cache.CAS && size == 0 && hash == emptySha256 {
+		return nil
+	}
+
+	// Put requests are processed''',
+  '''	if size == 0 && hash == emptySha256 {
+		return nil
+	}
+
+	// Put requests are processed''')
+m('put-empty-shortcut-any-size', 'R01a', 'cache/disk/disk.go',
+  '''	if kind == cache.CAS && size == 0 && hash == emptySha256 {
+		return nil
+	}
+
+	// Put requests are processed''',
+  '''	if kind == cache.CAS && hash == emptySha256 {
+		return nil
+	}
+
+	// Put requests are processed''')
